@@ -131,6 +131,9 @@ func (e *Encoder) MaxDynamicTableSize() (v uint32) {
 func (e *Encoder) SetMaxDynamicTableSizeLimit(v uint32) {
 	e.maxSizeLimit = v
 	if e.dynTab.maxSize > v {
+		if v < e.minSize {
+			e.minSize = v
+		}
 		e.tableSizeUpdate = true
 		e.dynTab.setMaxSize(v)
 	}
